@@ -36,7 +36,7 @@ Qed.
 
 Ltac unfold_sstep H :=
   unfold do_provision_v1, do_sstart, do_sstop, do_giveme, do_set_reserved, do_set_shared,
-    do_loop_provision, do_lease, do_lease_ret, do_expire, do_recalc, do_sloop_shutdown, do_stime in H.
+    do_loop_provision, do_create_ret, do_lease, do_lease_ret, do_expire, do_recalc, do_sloop_shutdown, do_stime in H.
 
 (* ------------------------------------------------------------------ list facts *)
 
@@ -95,9 +95,11 @@ Definition UninitInv (s : sstate) : Prop :=
   s_phase s = SUninit ->
   s_parts s = [] /\ s_capacity s = 0 /\ s_recalcs s = 0%nat /\ s_loop s = SOff /\ s_timers s = [].
 
+Definition not_creating (s : sstate) : Prop := forall n, s_loop s <> SCreating n.
+
 Definition CapInv (c : scfg) (s : sstate) : Prop :=
   UninitInv s /\
-  ((sc_gen c = V2 \/ s_recalcs s = 0%nat) -> s_capacity s = held s * s_factor s).
+  ((sc_gen c = V2 \/ s_recalcs s = 0%nat) -> not_creating s -> s_capacity s = held s * s_factor s).
 
 Lemma heldn_set_none : forall p l, (heldn (set_nth p None l) <= heldn l)%nat.
 Proof.
@@ -106,52 +108,64 @@ Proof.
   - destruct x; simpl; specialize (IH l); lia.
 Qed.
 
+(* the second component, for steps that leave the capacity, the table and the factor alone *)
+Ltac cap_keep HI :=
+  let X := fresh "X" in let NC := fresh "NC" in
+  intros X NC;
+  first [ reflexivity
+        | apply HI; [ destruct X as [X|X]; [left; congruence | right; assumption]
+                    | unfold not_creating in *; simpl in *; intros n E; first [apply (NC n); congruence | congruence] ]
+        | destruct X as [X|X]; congruence
+        | exfalso; unfold not_creating in NC; simpl in NC; eapply NC; reflexivity ].
+
 Lemma capinv_step c s l s' o : CapInv c s -> sstep c s l = Some (s', o) -> CapInv c s'.
 Proof.
   intros [HU HI] H.
   destruct l; simpl in H; unfold_sstep H.
   all: try (cases_in H; try some_inv H; unfold CapInv, UninitInv, calc, held in *; simpl in *;
             (split; [first [exact HU | intros X; first [congruence | apply HU; assumption]]
-                    | first [ intros X; reflexivity
-                            | intros X; apply HI; destruct X as [X|X]; [left; congruence | right; assumption]
-                            | intros X; destruct X as [X|X]; congruence ]]); fail).
+                    | cap_keep HI]); fail).
   all: try (cases_in H; try some_inv H; unfold CapInv, UninitInv, calc, held in *; simpl in *;
             (split;
              [ intros X; destruct (HU X) as (U1 & U2 & U3 & U4 & U5); rewrite ?U1, ?U2, ?U3, ?U4, ?U5 in *; simpl in *;
                try congruence; repeat split; try assumption; try reflexivity; try lia
-             | first [ intros X; reflexivity
-                     | intros X; apply HI; destruct X as [X|X]; [left; congruence | right; assumption]
-                     | intros X; destruct X as [X|X]; congruence ]]); fail).
+             | cap_keep HI]); fail).
   - (* v1 Provision *)
     destruct (sc_gen c) eqn:G; [|discriminate].
     destruct (s_phase s) eqn:P;
-      try (some_inv H; split; [first [exact HU | intro; congruence]|intros [X|X]; [congruence|apply HI; now right]]).
+      try (some_inv H; split; [first [exact HU | intro; congruence]|intros [X|X] NC; [congruence|apply HI; [now right|exact NC]]]).
     destruct (HU P) as (U1 & U2 & U3 & U4 & U5).
     cases_in H; some_inv H; unfold CapInv, UninitInv, calc, held in *; simpl in *; rewrite ?U1, ?U2 in *; simpl;
       (split; [intros X; try congruence; repeat split; try assumption; reflexivity
-              | intros _; try reflexivity;
+              | intros _ _; try reflexivity;
                 try (match goal with |- context [length (filter ?f (repeat None ?n))] =>
                        change (length (filter f (repeat None n))) with (heldn (repeat None n));
                        rewrite heldn_repeat_none end); simpl; lia]).
   - (* Start *)
     destruct (sc_gen c) eqn:G.
     + destruct (s_phase s) eqn:P; some_inv H;
-        try (split; [first [exact HU | intro; congruence]|intros [X|X]; [congruence|apply HI; now right]]).
+        try (split; [first [exact HU | intro; congruence]|intros [X|X] NC; [congruence|apply HI; [now right|exact NC]]]).
       split; [intro; simpl in *; congruence|]. simpl. intros [X|X]; [congruence|discriminate].
     + destruct (s_phase s) eqn:P;
-        try (some_inv H; split; [first [exact HU | intro; congruence]|intros _; apply HI; now left]).
+        try (some_inv H; split; [first [exact HU | intro; congruence]|intros _ NC; apply HI; [now left|exact NC]]).
       destruct (HU P) as (U1 & U2 & U3 & U4 & U5).
       cases_in H; some_inv H; unfold CapInv, UninitInv, calc, held in *; simpl in *; rewrite ?U1, ?U2 in *; simpl;
-        (split; [intros X; try congruence; repeat split; assumption | intros _; simpl; try lia; reflexivity]).
-  - (* v2 loop provisioning *)
+        (split; [intros X; try congruence; repeat split; assumption | intros _ _; simpl; try lia; reflexivity]).
+  - (* v2 loop provisioning: the capacity is recomputed only when CreatePartitions has returned *)
     destruct (sc_gen c) eqn:G; [discriminate|].
     destruct (at_top s && s_prov_req s) eqn:E; [|discriminate]. bool_hyps. some_inv H.
     unfold at_top in *. destruct (s_loop s) eqn:EL; try discriminate.
-    split; [|intros _; reflexivity]. intro X. simpl in X. destruct (HU X) as (_ & _ & _ & U4 & _). congruence.
+    split; [|intros _ NC; exfalso; eapply NC; simpl; reflexivity].
+    intro X. simpl in X. destruct (HU X) as (_ & _ & _ & U4 & _). congruence.
+  - (* shutdown *)
+    destruct (s_loop s) eqn:EL; try (rewrite andb_false_r in H; discriminate);
+      cases_in H; some_inv H; (split; [intro X; simpl in X; congruence|]); simpl;
+      intros X NC; unfold calc, held in *; simpl;
+      (apply HI; [destruct X as [X|X]; [left; congruence|right; exact X]|intros n E; congruence]).
 Qed.
 
 Lemma capinv_init c r sh : CapInv c (sinit c r sh).
-Proof. split; [intro; simpl; repeat split|]. intros _. simpl. reflexivity. Qed.
+Proof. split; [intro; simpl; repeat split|]. intros _ _. simpl. reflexivity. Qed.
 
 Theorem capinv_reachable c r sh s : sreachable c r sh s -> CapInv c s.
 Proof.
@@ -206,15 +220,53 @@ Lemma provision_count_v2 c s s' o :
   /\ (max_partitions < partition_count (s_shared s) (s_factor s) -> In (SOEvError (partition_count (s_shared s) (s_factor s))) o)
   /\ (forall i, (i < length (s_parts s'))%nat -> (i < length (s_parts s))%nat -> nth_error (s_parts s') i = nth_error (s_parts s) i)
   /\ (forall i, (i < length (s_parts s'))%nat -> (length (s_parts s) <= i)%nat -> nth_error (s_parts s') i = Some None)
-  /\ s_capacity s' = held s' * s_factor s'.
+  /\ s_loop s' = SCreating (Z.min (partition_count (s_shared s) (s_factor s)) max_partitions).
 Proof.
   intros G H. simpl in H. unfold do_loop_provision in H. rewrite G in H.
-  destruct (at_top s && s_prov_req s); [|discriminate]. some_inv H. unfold calc. simpl.
+  destruct (at_top s && s_prov_req s); [|discriminate]. some_inv H. simpl.
   rewrite resize_length. repeat split.
   - apply in_or_app. right. simpl. tauto.
   - intro X. apply Z.ltb_lt in X. rewrite X. simpl. tauto.
   - intros i A B. rewrite ?resize_length in A. now apply resize_prefix.
   - intros i A B. rewrite ?resize_length in A. now apply resize_new.
+Qed.
+
+(* growth (and any resize that drops no counted partition) leaves the number of counted partitions alone: the
+   published capacity stays exact while CreatePartitions runs; only a shrink that drops counted partitions makes
+   it lag until CreatePartitions has returned (or the next expiry) *)
+Lemma heldn_resize_grow : forall n l, (length l <= n)%nat -> heldn (resize n None l) = heldn l.
+Proof.
+  induction n as [|n IH]; intros [|x l] H; simpl in *; try lia; try reflexivity.
+  - clear IH H. induction n as [|n IH]; simpl; [reflexivity|]. unfold heldn in *. simpl. exact IH.
+  - unfold heldn in *. simpl. destruct x; simpl; rewrite (IH l) by lia; reflexivity.
+Qed.
+
+Lemma growth_keeps_capacity_exact c s s' o :
+  sstep c s SILoopProvision = Some (s', o) -> (length (s_parts s) <= length (s_parts s'))%nat ->
+  s_capacity s = held s * s_factor s -> s_capacity s' = held s' * s_factor s'.
+Proof.
+  simpl. unfold do_loop_provision. intros H L E. destruct (sc_gen c); [discriminate|].
+  destruct (at_top s && s_prov_req s); [|discriminate]. some_inv H. simpl in *.
+  rewrite resize_length in L. rewrite held_unfold in *. simpl. rewrite heldn_resize_grow by exact L. exact E.
+Qed.
+
+(* CreatePartitions returns: provisioning is done, the capacity is recomputed from the table as it is then *)
+Lemma create_ret_effect c s s' o :
+  sstep c s SICreateRet = Some (s', o) ->
+  exists n, s_loop s = SCreating n /\ s_loop s' = STop (s_now s) /\ s_parts s' = s_parts s
+    /\ s_capacity s' = held s' * s_factor s' /\ o = [SOEvProvisionDone n; SOEvCapacity (capacity s')].
+Proof.
+  simpl. unfold do_create_ret. intro H. destruct (s_loop s) eqn:L; try discriminate. some_inv H.
+  exists n. unfold calc. simpl. repeat split; reflexivity.
+Qed.
+
+(* while CreatePartitions runs nothing is locked: a lease that expires meanwhile is cleared at once *)
+Lemma expiry_during_create c s p n s' o :
+  s_loop s = SCreating n -> sstep c s (SIExpire p) = Some (s', o) -> s_loop s' = SCreating n /\ In (SOEvReleased p) o.
+Proof.
+  simpl. unfold do_expire. intros L H. destruct (remove_timer p (s_now s) (s_timers s)); [|discriminate].
+  destruct (sc_gen c); [some_inv H; simpl; split; [exact L|now left]|].
+  destruct (s_stop_req s); [discriminate|]. some_inv H. unfold calc. simpl. split; [exact L|now left].
 Qed.
 
 Lemma provision_count_v1 c s a b s' o :
@@ -466,10 +518,10 @@ Qed.
 (* ------------------------------------------------------------------ C06: limits *)
 
 Lemma capacity_upper c r sh s :
-  sreachable c r sh s -> (sc_gen c = V2 \/ s_recalcs s = 0%nat) -> 0 <= s_factor s ->
+  sreachable c r sh s -> (sc_gen c = V2 \/ s_recalcs s = 0%nat) -> not_creating s -> 0 <= s_factor s ->
   capacity s <= s_reserved s + s_factor s * Z.of_nat (length (s_parts s)).
 Proof.
-  intros R X F. destruct (capinv_reachable c r sh s R) as [_ HC]. unfold capacity. rewrite (HC X).
+  intros R X NC F. destruct (capinv_reachable c r sh s R) as [_ HC]. unfold capacity. rewrite (HC X NC).
   rewrite held_unfold. pose proof (heldn_le (s_parts s)). nia.
 Qed.
 
